@@ -1214,8 +1214,7 @@ def spec_to_dask(c, self):
 
 
 def spec_rechunk(c, self, chunks=None, **kwargs):
-    # Dask's "auto" chunking divides by the array size: an empty signal is outside what it defines
-    c.raise_if(V.eq(c.view(self).N, 0), "ANY", "rechunk of an empty signal (dask auto-chunking undefined)")
+    # statement: "compute/persist/to_dask_array/rechunk change only the container" -- of every signal, an empty one too
     return _container(c, self, "dask")
 
 
